@@ -86,7 +86,7 @@ func init() {
 		Rule: "case kinds by k mod 4: (0) Node: a fully populated base node (every schema field, nested persons with contacts, external references with hashes; separator-free text), a permuted presentation of it, and for EVERY mutation site enumerated by reflection " +
 			"(each field path incl. nested persons/contacts/external references/hashes/authority, dates +7 s; nanos changes must stay equal) a single-attribute mutant: reflexivity, symmetry, transitivity, Equal<=>Checksum equality, permutation invariance, mutant unequal; " +
 			"(1) Edge triples the same way; (2) NodeList: permuted nodes/edges/targets/roots equal, single-attribute mutants of any node, edge, root unequal; (3) random pairs/triples with arbitrary text (TEXT_ANY) for the equivalence laws and Equal<=>Checksum, " +
-			"plus the crafted separator-collision pairs of the known finding; pairs differing only in how often one entry of a list occurs (Equal and checksum equality must agree). After the mutants, the SAME node (and list) value is compared and hashed, changed in place and asked again: the answers must equal those for a fresh copy of the changed value. distinct = hash of (kind, base value, mutation path); non-trivial = mutant at a nested path or permutation of >=2 elements.",
+			"plus the crafted separator-collision pairs of the known finding; pairs of long values (130..4100 characters) differing in one character; pairs differing only in how often one entry of a list occurs (Equal and checksum equality must agree). After the mutants, the SAME node (and list) value is compared and hashed, changed in place and asked again: the answers must equal those for a fresh copy of the changed value. distinct = hash of (kind, base value, mutation path); non-trivial = mutant at a nested path or permutation of >=2 elements.",
 		Assumptions: []string{"verdict cases use separator-free text without digits in map values (known finding flatstring-separator-collision covers the rest)", "multiset changes of list attributes and the order of a person's contacts are not judged"},
 		NCases: func(tier string) int {
 			if tier == "thorough" {
@@ -287,6 +287,64 @@ func c13Extra(c *core.C, base *sbom.Node) bool {
 		c.Cover("texts-that-read-as-formatting-directives")
 		if a.Equal(b) || b.Equal(a) || a.Checksum() == b.Checksum() {
 			c.Violatef("node-mutant-equal:"+mu.FieldPath()+":formatting-directive", map[string]any{"path": mu.String(), "values": pr}, "nodes whose %s is %q and %q compare equal (or hash alike)", mu.String(), pr[0], pr[1])
+			return false
+		}
+	}
+	// long values that agree in their length and in a long prefix: one character differs at the end, in the middle
+	// or just past a power-of-two boundary
+	longPair := func() (string, string) {
+		n := []int{130, 200, 257, 300, 520, 1025, 4100}[r.Intn(7)]
+		b := make([]byte, n)
+		for i := range b {
+			b[i] = byte('a' + r.Intn(26))
+		}
+		pos := []int{n - 1, n / 2, 128, 129, 64, n - 2}[r.Intn(6)]
+		if pos >= n {
+			pos = n - 1
+		}
+		o := append([]byte{}, b...)
+		o[pos] = byte('a' + (int(b[pos]-'a')+1+r.Intn(25))%26)
+		return string(b), string(o)
+	}
+	for tries := 0; tries < 4; tries++ {
+		mu := c13NodeMuts[r.Intn(len(c13NodeMuts))]
+		if mu.Action != "set" || mu.FD.Kind() != protoreflect.StringKind || mu.FD.Name() == "id" || mu.FD.IsList() || mu.FD.IsMap() {
+			continue
+		}
+		a, b := gen.Clone(base), gen.Clone(base)
+		ma, oka := gen.Navigate(a.ProtoReflect(), mu.Path)
+		mb, okb := gen.Navigate(b.ProtoReflect(), mu.Path)
+		if !oka || !okb {
+			continue
+		}
+		va, vb := longPair()
+		ma.Set(mu.FD, protoreflect.ValueOfString(va))
+		mb.Set(mu.FD, protoreflect.ValueOfString(vb))
+		c.Evals(2)
+		c.Cover("long-values-differing-in-one-character")
+		if a.Equal(b) || b.Equal(a) || a.Checksum() == b.Checksum() {
+			c.Violatef("node-mutant-equal:"+mu.FieldPath()+":long-value", map[string]any{"path": mu.String(), "length": len(va)}, "nodes whose %s are two %d-character values differing in one character compare equal (or hash alike)", mu.String(), len(va))
+			return false
+		}
+	}
+	for _, name := range []string{"licenses", "attribution", "file_types"} {
+		fd := base.ProtoReflect().Descriptor().Fields().ByName(protoreflect.Name(name))
+		if fd == nil || !fd.IsList() || fd.Kind() != protoreflect.StringKind {
+			continue
+		}
+		a, b := gen.Clone(base), gen.Clone(base)
+		va, vb := longPair()
+		a.ProtoReflect().Mutable(fd).List().Append(protoreflect.ValueOfString(va))
+		b.ProtoReflect().Mutable(fd).List().Append(protoreflect.ValueOfString(vb))
+		c.Evals(2)
+		c.Cover("long-values-differing-in-one-character:" + name)
+		if a.Equal(b) || b.Equal(a) || a.Checksum() == b.Checksum() {
+			c.Violatef("node-mutant-equal:"+name+":long-value", map[string]any{"field": name, "length": len(va)}, "nodes whose %s hold two %d-character entries differing in one character compare equal (or hash alike)", name, len(va))
+			return false
+		}
+		la, lb := &sbom.NodeList{Nodes: []*sbom.Node{a}}, &sbom.NodeList{Nodes: []*sbom.Node{b}}
+		if la.Equal(lb) {
+			c.Violatef("list-mutant-equal:"+name+":long-value", map[string]any{"field": name, "length": len(va)}, "node lists whose only node differs in one character of a %d-character %s entry compare equal", len(va), name)
 			return false
 		}
 	}
